@@ -378,6 +378,11 @@ func DefaultClassify(spec Spec, c *ev.Check, o *Outcome) {
 		return
 	}
 	line := CrashLine(o.Stderr)
+	if strings.Contains(line, "lived for longer than 120 seconds") || strings.Contains(line, "client was not closed during testing") {
+		// the test build's own watchdog: an instance outlived 120 s because the machine was too slow
+		c.Inconc(fmt.Sprintf("batch %d (%s): a test-mode instance outlived its built-in 120 s limit (machine too loaded): %s", o.Batch.Index, o.Batch.Kind, line))
+		return
+	}
 	if line != "" {
 		c.Violation("crash:"+Normalize(line), fmt.Sprintf("child process died (exit %d): %s", o.ExitCode, line), replayOf(o))
 		return
